@@ -83,6 +83,7 @@ type Config struct {
 	Seed     uint64 // PRNG seed for choices that are not pinned
 	Choices  []int  // pinned choices, consumed in order at decisions with >1 ready task
 	Preempts []int  // dynamic Step indices at which the running task is preempted (sorted)
+	Selects  []int  // pinned choices among the ready cases of select statements
 	Sticky   int    // 0..100: probability (percent) of continuing with the task that ran last when it is ready
 	MaxSteps int64  // abort the run when more Step calls than this were made (0 = 2e6)
 	MaxSyncs int64  // abort the run after this many scheduling decisions (0 = 2e6)
@@ -125,20 +126,22 @@ type Sim struct {
 	// results
 	Stats      Stats
 	ChoicesLog []int
+	SelectLog  []int
 	hash       uint64
 	log        []string
 }
 
 // Stats of a run.
 type Stats struct {
-	Steps      int64
-	Syncs      int64
-	Decisions  int64 // scheduling decisions with more than one ready task
-	MaxReady   int
-	Preempted  int
-	Tasks      int
-	IdleWaits  int
-	SimElapsed time.Duration
+	Steps         int64
+	Syncs         int64
+	Decisions     int64 // scheduling decisions with more than one ready task
+	MaxReady      int
+	Preempted     int
+	SelectChoices int
+	Tasks         int
+	IdleWaits     int
+	SimElapsed    time.Duration
 }
 
 // New creates a simulation and installs it as the current one. Must be called
@@ -165,6 +168,7 @@ func New(cfg Config) *Sim {
 	}
 	sort.Ints(s.cfg.Preempts)
 	s.armPreempt()
+	selfCheckSelect()
 	cur.Store(s)
 	return s
 }
@@ -508,8 +512,10 @@ func Branch(site string) {
 	if t == nil {
 		return
 	}
-	s.Logf("branch %s %s", t.id, site)
-	s.park(t, site)
+	// The clause taken is logged by the scheduler when the task is next run (the task reaches
+	// this point in the short window between being woken and parking, concurrently with the
+	// baton holder: logging here would make the position of the line depend on real timing).
+	s.park(t, "branch:"+site)
 }
 
 // GoStart is the first statement of every `go func(){...}()` literal body.
